@@ -15,7 +15,7 @@ def classify(inp, obs, tags):
 PROP = dict(
     engines=[dict(
         name="schedvec", classify=classify,
-        quick=dict(cases=1280, shards=16, extra=["--shards", "16", "--por", "1", "--xmax", "14"]),
+        quick=dict(cases=1440, shards=16, extra=["--shards", "16", "--por", "1", "--xmax", "14"]),
         thorough=dict(cases=6400, shards=16, extra=["--shards", "16", "--por", "0", "--xmax", "160"]),
     )],
     rule="schedules: (a) interleavings of ONE write() with TWO reader operations at pause-point granularity, enumerated "
@@ -28,9 +28,13 @@ PROP = dict(
          "1-2 reader pairs each (VecReader / fold_range_at / cursor / collect_range_at created before the relocation; compressed: "
          "collect_one_at / fold / range / cursor): for these the directed schedule 'readers up to the stop at which they hold "
          "their Reader, writer to the end of both writes, readers to the end' is always run in addition to the enumeration; "
+         "plus 4 regimes of format rawn = the raw format with an element type whose Bytes form (big-endian) is NOT its memory "
+         "layout, so that write() serialises value by value and the readers read value by value (fits, in-place extension, "
+         "relocation to the end, relocation into a hole; the 3 raw reader pairs, which all read the tail: collect_one_at(last) + "
+         "collect_range_at, fold_range_at + cursor(last), VecReader(last) + collect_one_at(first)); "
          "quick = stride sample of the enumeration reduced by commuting adjacent reader steps, thorough = up to 160 schedules per configuration without the commutation reduction "
          "(capped at 400000 per configuration); (b) random longer schedules (1-3 writes, 1-3 readers x 1-3 operations, fine stops "
-         "incl. the mmap lock taps), a quarter of them with the second vector b (created with an initial size by 1-2 pre-phase "
+         "incl. the mmap lock taps; formats raw, rawn, pco, pco, lz4 with equal weight), a quarter of them with the second vector b (created with an initial size by 1-2 pre-phase "
          "writes, written 1-2 times between / after the writes of a: its relocations, in-place extensions and file growths are "
          "ordinary writer stops); the oracle is the same in all cases (values read = values pushed to a, b's values come from "
          "another generator); non-trivial = every case (two or more threads interleaved); distinct = distinct input line",
